@@ -8,7 +8,7 @@ partial def loop (f : String → String) (h out : IO.FS.Stream) : IO Unit := do
   loop f h out
 
 def main (args : List String) : IO UInt32 := do
-  let T := protoTables
+  let T := goTables   -- unicode.IsPrint / IsSpace of the running Go (regenerated), not the ASCII stand-in
   let f : Option (String → String) := match args with
     | ["eval"] => some (handleEval T)
     | ["parse"] => some (handle T)
